@@ -96,6 +96,8 @@ def calls_in(node):
 
 def call_name(call):
     """Last component of the callee: `a.b.c(...)` -> 'c', `f(...)` -> 'f'."""
+    if not isinstance(call, ast.Call):
+        return None
     f = call.func
     if isinstance(f, ast.Attribute):
         return f.attr
@@ -106,6 +108,8 @@ def call_name(call):
 
 def call_recv(call):
     """Dotted receiver of a method call (`a.b.c()` -> 'a.b'), or None."""
+    if not isinstance(call, ast.Call):
+        return None
     f = call.func
     if isinstance(f, ast.Attribute):
         return dotted(f.value)
